@@ -421,7 +421,12 @@ func zzC04_stale() {
 			if round == symParam("expire-after", 2) {
 				// the peer was slow: more than the block-wise expiration passes before this block arrives
 				symSetNow(time.Unix(0, 1<<41+int64(2*time.Hour)))
-				l.cli.CheckExpirations(time.Unix(0, 1<<41+int64(2*time.Hour)))
+				if symChoose("swept", 2) == 1 {
+					l.cli.CheckExpirations(time.Unix(0, 1<<41+int64(2*time.Hour)))
+				} else {
+					// the housekeeping sweep has not run yet: the expired entry is still in the cache
+					symCover("expired-unswept")
+				}
 				symCover("expired")
 			}
 			w := responsewriter.New(pool.NewMessage(reply.Context()), l.cc, reply.Options()...)
